@@ -26,7 +26,7 @@ Cases ==
   [via : {"ctor", "from_data", "iter"}, frames : {0, 1, 3},   \* 0 = INDEFINITE, 1 = not animated
    loops : {-1, 0, 2}, cachekind : {"bool", "int"}, cacheb : BOOLEAN, cachen : {-1, 0, 2, 3},
    data : {"ok", "other-class", "finalized", "not-iteration"}, args : {"none", "own", "incompatible"},
-   fits : {"yes", "render-too-big", "padding-too-big"},
+   fits : {"yes", "render-too-big", "padding-too-big", "padding-raises"},
    finalize : BOOLEAN]     \* _from_render_data_(finalize=...): does the iterator own the data?
 
 Relevant(c) ==
@@ -35,7 +35,8 @@ Relevant(c) ==
   /\ (c.cachekind = "bool" => c.cachen = 2)
   /\ (c.cachekind = "int" => c.cacheb)
   /\ (c.fits # "yes" => c.cachekind = "bool" /\ c.data = "ok" /\ c.args # "incompatible" /\ c.loops # 0)
-  /\ (c.via = "iter" => c.fits # "padding-too-big")
+  /\ (c.via = "iter" => c.fits \notin {"padding-too-big", "padding-raises"})
+  /\ (c.fits = "padding-raises" => c.via = "from_data" /\ c.frames # 1)
   /\ (c.via # "from_data" => c.finalize)     \* the parameter exists for _from_render_data_ only
 
 Verdict(c) ==
@@ -45,7 +46,13 @@ Verdict(c) ==
   ELSE IF c.cachekind = "int" /\ c.cachen <= 0 THEN "ValueError"
   ELSE IF c.via = "from_data" /\ c.data # "ok" THEN "ValueError"
   ELSE IF c.args = "incompatible" THEN "IncompatibleRenderArgsError"
+  \* a user padding whose get_padded_size() raises makes the set-up fail with that exception;
+  \* render data the CALLER kept ownership of (finalize = FALSE) must survive the failed
+  \* construction un-finalized (CallerDataSurvives, checked on the real objects after a collection)
+  ELSE IF c.fits = "padding-raises" THEN "PadError"
   ELSE "ok"
+
+CallerDataSurvives(c) == c.via = "from_data" /\ ~c.finalize /\ c.data = "ok"
 
 Loop(c) == IF c.frames = 0 THEN 1 ELSE IF c.via = "iter" THEN 1 ELSE c.loops
 Cached(c) == IF c.frames = 0 \/ c.via = "iter" THEN FALSE
